@@ -463,6 +463,16 @@ def main(argv):
         import gen_cases
         gen_cases.MODEL_EXE = exe_model
         text, stats, distinct, samples = P["gen"](seed, tier)
+        # corpus: minimised inputs of defects found earlier (one file per case, /verif/corpus/<prop>/*.txt)
+        # run first on every tier, so that a defect that has been repaired is seen at once if it returns
+        cdir = os.path.join(VERIF, "corpus", prop)
+        if os.path.isdir(cdir):
+            ctext = ""
+            for f in sorted(os.listdir(cdir)):
+                if f.endswith(".txt"):
+                    ctext += open(os.path.join(cdir, f)).read().rstrip("\n") + "\n"
+                    stats["corpus:" + f[:-4]] = stats.get("corpus:" + f[:-4], 0) + 1
+            text = ctext + text
         ncases = sum(1 for l in text.splitlines() if l.startswith("case "))
 
     def execute(text):
